@@ -227,6 +227,11 @@ pub fn value_tags(v: &DV) -> std::collections::BTreeSet<String> {
         if m.len() > 1 {
           s.insert("v.map.multi".into());
         }
+        for (i, (k, _)) in m.iter().enumerate() {
+          if m[..i].iter().any(|(k2, _)| k2 == k) {
+            s.insert("v.map.dupkey".into());
+          }
+        }
         for (k, x) in m {
           if !matches!(k, DV::Text(_)) {
             s.insert(format!("v.key.{}", k.kind()));
